@@ -4,9 +4,11 @@ import (
 	"go/ast"
 	"go/constant"
 	"go/token"
+	"go/types"
 	"strconv"
 	"strings"
 
+	"golang.org/x/tools/go/packages"
 	"golang.org/x/tools/go/ssa"
 )
 
@@ -530,7 +532,7 @@ func R11NoCarry(c *Ctx) {
 // R11ListSeparator — the operator's list fields are cut the same way everywhere (sibling agreement).
 func R11ListSeparator(c *Ctx) {
 	const rule = "R11-list-separator"
-	c.R.Rule(rule, "every strings.Split of a list field of a listener message (pk.Body.Info[\"Hosts\"|\"Headers\"|\"Uris\"]) in DispatchEvent — the Add and the Edit branch — uses one and the same separator constant: the client joins these lists one way, so a branch that cuts differently configures different headers/URIs than the operator entered (a header value containing a comma is split in two)", 4)
+	c.R.Rule(rule, "every strings.Split of a list field of a listener message (pk.Body.Info[\"Hosts\"|\"Headers\"|\"Uris\"]) in DispatchEvent — the Add and the Edit branch — uses one and the same separator constant (directly, or through a helper of this package that splits its argument at a constant): the client joins these lists one way, so a branch that cuts differently configures different headers/URIs than the operator entered (a header value containing a comma is split in two)", 3)
 	fd, pk := c.P.FuncDecl(PkgServer, "Teamserver.DispatchEvent")
 	if fd == nil {
 		c.R.Anchor(rule, "server.(*Teamserver).DispatchEvent")
@@ -543,11 +545,37 @@ func R11ListSeparator(c *Ctx) {
 	var sites []site
 	ast.Inspect(fd.Body, func(n ast.Node) bool {
 		call, ok := n.(*ast.CallExpr)
-		if !ok || len(call.Args) != 2 {
+		if !ok {
 			return true
 		}
 		fn := Callee(pk.TypesInfo, call)
-		if fn == nil || fn.FullName() != "strings.Split" {
+		if fn == nil {
+			return true
+		}
+		if fn.FullName() != "strings.Split" {
+			// a same-package helper that splits its string parameter at a constant separator
+			if fn.Pkg() == nil || fn.Pkg().Path() != PkgServer || len(call.Args) != 1 {
+				return true
+			}
+			sep, ok := helperSplitSep(pk, fn)
+			if !ok {
+				return true
+			}
+			key := ""
+			ast.Inspect(call.Args[0], func(m ast.Node) bool {
+				if ix, ok := m.(*ast.IndexExpr); ok && strings.HasSuffix(ExprStr(ix.X), "Body.Info") {
+					if tv, ok := pk.TypesInfo.Types[ix.Index]; ok && tv.Value != nil {
+						key = constant.StringVal(tv.Value)
+					}
+				}
+				return true
+			})
+			if key != "" {
+				sites = append(sites, site{key, sep, call.Pos()})
+			}
+			return true
+		}
+		if len(call.Args) != 2 {
 			return true
 		}
 		// first argument: pk.Body.Info["K"].(string)
@@ -645,4 +673,39 @@ func reachesProtocol(fn *ssa.Function) bool {
 		})
 	}
 	return hit
+}
+
+// helperSplitSep: fn (declared in pk) contains strings.Split(<its only string parameter>, <constant>) — returns the constant.
+func helperSplitSep(pk *packages.Package, fn *types.Func) (string, bool) {
+	for _, f := range pk.Syntax {
+		for _, d := range f.Decls {
+			fd, ok := d.(*ast.FuncDecl)
+			if !ok || fd.Body == nil || pk.TypesInfo.Defs[fd.Name] != types.Object(fn) {
+				continue
+			}
+			if fd.Type.Params == nil || len(fd.Type.Params.List) != 1 || len(fd.Type.Params.List[0].Names) != 1 {
+				return "", false
+			}
+			param := pk.TypesInfo.Defs[fd.Type.Params.List[0].Names[0]]
+			sep, found := "", false
+			ast.Inspect(fd.Body, func(n ast.Node) bool {
+				call, ok := n.(*ast.CallExpr)
+				if !ok || len(call.Args) != 2 {
+					return true
+				}
+				if c2 := Callee(pk.TypesInfo, call); c2 == nil || c2.FullName() != "strings.Split" {
+					return true
+				}
+				if id, ok := ast.Unparen(call.Args[0]).(*ast.Ident); !ok || pk.TypesInfo.Uses[id] != param {
+					return true
+				}
+				if tv, ok := pk.TypesInfo.Types[call.Args[1]]; ok && tv.Value != nil && tv.Value.Kind() == constant.String {
+					sep, found = constant.StringVal(tv.Value), true
+				}
+				return true
+			})
+			return sep, found
+		}
+	}
+	return "", false
 }
